@@ -9,7 +9,7 @@ theorem closeInner_ok (doc : Bytes) (hH : doc.length ≤ HALF) (openPat : Bytes)
     (hcl : openPat.length ≤ closeLen) (hcl1 : 1 ≤ closeLen) (hcp : cp + closeLen ≤ doc.length) :
     ∀ fuel (cur : Cur) (dc : Nat) (le : Err), cur.off + cur.len = doc.length → cur.off ≤ cp → cur.len < fuel →
       Ok (closeInner doc openPat cp closeLen fuel cur dc le)
-        (fun r => r.1 = ⟨cp + closeLen, doc.length - (cp + closeLen)⟩) := by
+        (fun r => r.1 = ⟨cp + closeLen, doc.length - (cp + closeLen)⟩ ∧ r.2.1 ≤ dc + cur.len) := by
   intro fuel
   induction fuel with
   | zero => intro _ _ _ _ _ h; omega
@@ -26,7 +26,7 @@ theorem closeInner_ok (doc : Bytes) (hH : doc.length ≤ HALF) (openPat : Bytes)
     cases hf : findSpec doc cur openPat with
     | mk r e =>
       cases r with
-      | none => exact ⟨_, rfl, hfin⟩
+      | none => exact ⟨_, rfl, hfin, by simp only; omega⟩
       | some op =>
         obtain ⟨h1, h2, _, _⟩ := findSpec_some hs hf
         simp only
@@ -38,9 +38,14 @@ theorem closeInner_ok (doc : Bytes) (hH : doc.length ≤ HALF) (openPat : Bytes)
             rw [advance_eq (by omega) (by omega)]
             congr 1; omega
           rw [hadv]
-          exact ih _ _ _ (by simp only; omega) (by simp only; omega) (by simp only; omega)
+          obtain ⟨r, hr, hr1, hr2⟩ := ih ⟨op + 1, cur.len - (op - cur.off + 1)⟩
+            (if isNameEnd (doc[op + openPat.length]'(by omega)) = true then dc + 1 else dc) le
+            (by simp only; omega) (by simp only; omega) (by simp only; omega)
+          refine ⟨r, hr, hr1, ?_⟩
+          simp only at hr2
+          split at hr2 <;> omega
         · simp only [hlt, if_false]
-          exact ⟨_, rfl, hfin⟩
+          exact ⟨_, rfl, hfin, by simp only; omega⟩
 
 def closePatOf (nm : Bytes) : Bytes := LT :: SLASH :: (nm ++ [GT])
 def openPatOf (nm : Bytes) : Bytes := LT :: nm
@@ -70,6 +75,7 @@ theorem closeOuter_ok (doc : Bytes) (hH : doc.length ≤ HALF) (nm : Bytes) :
         obtain ⟨⟨cur', dc', le'⟩, hci, hP⟩ := closeInner_ok doc hH (openPatOf nm) cp (closePatOf nm).length hlen hlen1 h2
           (cur.len + 1) cur dc le hs h1 (by omega)
         rw [hci]
+        obtain ⟨hP, _⟩ := hP
         simp only at hP ⊢
         subst hP
         by_cases hdc : dc' > 0
